@@ -6,7 +6,8 @@
    Layer B (go-ds-crdt v0.1.21 set.go / crdt.go as written): `merge` over ALL lists of deltas and ALL delivery
    orders (permutations); the write path of one replica over ALL histories and commit outcomes.
    Layer C (PutHook/DeleteHook -> PinTracker.Track/Untrack): `tracker_call`. *)
-From V Require Import Base.Common Model.C02_Batch Model.C02_Set Model.C02_Check Proofs.C02_Batch Proofs.C02_Set Proofs.C02_Local Proofs.C02_Check.
+From V Require Import Base.Common Model.C02_Batch Model.C02_BatchTime Model.C02_Set Model.C02_Net Model.C02_Check
+  Proofs.C02_Batch Proofs.C02_BatchTime Proofs.C02_Set Proofs.C02_Net Proofs.C02_Local Proofs.C02_Check.
 From Coq Require Import Permutation.
 Open Scope N_scope.
 
@@ -91,6 +92,63 @@ Theorem batch_worker_never_blocks_before_fix_partial (A : Type) (c : bcfg) (es :
 Proof. exact (never_blocks_unfixed_partial c es). Qed.
 Print Assumptions batch_worker_never_blocks_before_fix_partial.
 
+(* ------------------------------------------------------------------ layer A with a clock (Model/C02_BatchTime.v) *)
+
+(* the timed machine (Reset sets an expiry, the timer fires no earlier than it, the clock moves with Tick) is a refinement
+   of `bstep`: every theorem above holds of every timed run *)
+Theorem batch_timed_refines_untimed (A : Type) (c : tcfg) (tes : list (cev A)) :
+  reset_every_item c = false -> exists es, core (trun c tes) = brun (tc c) es.
+Proof. exact (trun_untimed c tes). Qed.
+Print Assumptions batch_timed_refines_untimed.
+
+(* Reset is called for the first operation of a batch (and after a failed age-limit commit, fix 051502e) and never in
+   between: in every reachable state with a non-empty pending batch either the timer has fired and the worker has not read
+   the channel yet, or it is running and expires exactly max_age after the anchor of the batch = the instant its first
+   operation was taken from the queue, or the last failed age-limit commit after that. Every schedule, every outcome. *)
+Theorem batch_age_timer_discipline (A : Type) qcap maxsize age (tes : list (cev A)) :
+  let c := mk_tcfg (mk_bcfg qcap maxsize true) age false in
+  let s := trun c tes in
+  length (ptimes (ti s)) = length (pend (core s)) /\
+  (pend (core s) <> [] ->
+     (t_active (tm (core s)) = true /\ twhen (ti s) = age_anchor s + age) \/ t_chan (tm (core s)) = true).
+Proof. exact (age_timer_discipline (mk_tcfg (mk_bcfg qcap maxsize true) age false) tes eq_refl eq_refl). Qed.
+Print Assumptions batch_age_timer_discipline.
+
+(* the age limit: in every schedule in which the runtime fires a due timer within lf and the worker reads a fired timer
+   within lw, a pending batch is never older than max_age + lf + lw counted from its anchor ... *)
+Theorem batch_age_bound_anchor (A : Type) qcap maxsize age lf lw (tes : list (cev A)) :
+  let c := mk_tcfg (mk_bcfg qcap maxsize true) age false in
+  timely_from lf lw c tinit tes = true ->
+  let s := trun c tes in
+  pend (core s) <> [] -> now (ti s) <= age_anchor s + age + lf + lw.
+Proof. exact (age_bound (mk_tcfg (mk_bcfg qcap maxsize true) age false) lf lw tes eq_refl eq_refl). Qed.
+Print Assumptions batch_age_bound_anchor.
+
+(* ... so an operation that is still waiting in the batch was taken from the queue at most max_age + lf + lw ago, as long
+   as no age-limit commit of its batch failed; after such a failure the bound counts from the failure (the re-arm).
+   Operations leave the pending batch only through a successful commit (batch_no_loss_no_reorder). *)
+Theorem batch_age_bound (A : Type) qcap maxsize age lf lw (tes : list (cev A)) :
+  let c := mk_tcfg (mk_bcfg qcap maxsize true) age false in
+  timely_from lf lw c tinit tes = true ->
+  let s := trun c tes in
+  forall t, In t (ptimes (ti s)) ->
+    match rearm (ti s) with
+    | None => now (ti s) <= t + age + lf + lw
+    | Some r => now (ti s) <= r + age + lf + lw
+    end.
+Proof. exact (age_bound_items (mk_tcfg (mk_bcfg qcap maxsize true) age false) lf lw tes eq_refl eq_refl). Qed.
+Print Assumptions batch_age_bound.
+
+(* the bound is about WHERE Reset is called: the machine that re-arms the timer on every dequeued operation (not the code)
+   has a timely schedule in which the first operation of a trickle is still waiting after max_age + lf + lw *)
+Theorem batch_age_bound_fails_when_rearmed_on_every_item :
+  exists (tes : list (cev N)) t,
+    timely_from 1 1 (every_item_cfg 10) tinit tes = true /\
+    let s := trun (every_item_cfg 10) tes in
+    In t (ptimes (ti s)) /\ rearm (ti s) = None /\ ~ now (ti s) <= t + 10 + 1 + 1.
+Proof. exact every_item_breaks_bound. Qed.
+Print Assumptions batch_age_bound_fails_when_rearmed_on_every_item.
+
 (* ------------------------------------------------------------------ layer B: the replicated set *)
 
 (* any two delivery orders of the same deltas: same members *)
@@ -125,6 +183,36 @@ Theorem crdt_value_converges_partial (ds ds' : list delta) (k : key) :
   value_guard ds k -> Permutation ds ds' -> value (run ds rempty) k = value (run ds' rempty) k.
 Proof. exact (value_converges_partial ds ds' k). Qed.
 Print Assumptions crdt_value_converges_partial.
+
+(* ------------------------------------------------------------------ who merges what (Model/C02_Net.v) *)
+
+(* A peer merges an update iff it trusts its signer, whatever peer it was received from. Hence any two peers that trust
+   the same signers among those that published, and to which every published update has arrived (each through any path,
+   in any order), hold the same members ... *)
+Theorem crdt_trusting_peers_converge (pol : peer -> tpolicy) (pub : list sdelta) (x y : peer) (ax ay : list arrival) (k : key) :
+  Forall wf_delta (map sd_delta pub) ->
+  (forall d, In d pub -> trusts pol x (sd_signer d) = trusts pol y (sd_signer d)) ->
+  Permutation (map snd ax) pub -> Permutation (map snd ay) pub ->
+  present (pinset_of pol x ax) k = present (pinset_of pol y ay) k.
+Proof. exact (trusting_peers_converge pol pub x y ax ay k). Qed.
+Print Assumptions crdt_trusting_peers_converge.
+
+(* ... and the same pin, outside the two shapes of the dependency's value divergence (crdt_value_converges_partial) *)
+Theorem crdt_trusting_peers_values_converge_partial (pol : peer -> tpolicy) (pub : list sdelta) (x y : peer) (ax ay : list arrival) (k : key) :
+  value_guard (inbox pol x pub) k ->
+  (forall d, In d pub -> trusts pol x (sd_signer d) = trusts pol y (sd_signer d)) ->
+  Permutation (map snd ax) pub -> Permutation (map snd ay) pub ->
+  value (pinset_of pol x ax) k = value (pinset_of pol y ay) k.
+Proof. exact (trusting_peers_values_converge pol pub x y ax ay k). Qed.
+Print Assumptions crdt_trusting_peers_values_converge_partial.
+
+(* two peers that trust each other agree on every signer when the updates are theirs *)
+Theorem crdt_mutual_trust_same_signers (pol : peer -> tpolicy) (pub : list sdelta) (x y : peer) :
+  trusts pol x y = true -> trusts pol y x = true ->
+  (forall d, In d pub -> sd_signer d = x \/ sd_signer d = y) ->
+  forall d, In d pub -> trusts pol x (sd_signer d) = trusts pol y (sd_signer d).
+Proof. exact (mutual_trust_agree pol pub x y). Qed.
+Print Assumptions crdt_mutual_trust_same_signers.
 
 (* ------------------------------------------------------------------ hooks (layer C) *)
 
@@ -171,11 +259,13 @@ Print Assumptions crdt_local_is_map_refuted.
 
 (* ------------------------------------------------------------------ tie between the check and the theorems *)
 
-(* the correspondence check replays every observed trace with steps of `bstep` only: the state it compares with the
-   implementation is a reachable state of the machine, so every theorem of layer A applies to it *)
-Theorem h1_replay_is_a_run (c : bcfg) (nofire : bool) (t : list tev) :
-  exists es : list (bev item), r_b (replay c nofire t) = brun c es.
-Proof. exact (replay_reachable c nofire t). Qed.
+(* the correspondence check replays every observed trace with steps of the timed machine only (the clock follows the
+   harness timestamps): the state it compares with the implementation is a reachable state of `tstep`, and of `bstep` once
+   the clock is forgotten, so every theorem of layer A applies to it *)
+Theorem h1_replay_is_a_run (c : tcfg) (nofire : bool) (slack : N) (t : list (N * tev)) :
+  (exists tes : list (cev item), r_b (replay c nofire slack t) = trun c tes) /\
+  (reset_every_item c = false -> exists es : list (bev item), core (r_b (replay c nofire slack t)) = brun (tc c) es).
+Proof. exact (conj (replay_reachable c nofire slack t) (replay_reachable_untimed c nofire slack t)). Qed.
 Print Assumptions h1_replay_is_a_run.
 
 (* non-vacuity *)
@@ -186,3 +276,15 @@ Example batch_example :
   let s := brun (mk_bcfg 2 2 true) [Enq 1; Enq 2; Enq 3; Take true; Take true; SizeCommit true; Enq 4] in
   accepted s = [1; 2; 4] /\ refused s = [3] /\ committed s = [[1; 2]] /\ queue s = [4].
 Proof. exact batch_example_l. Qed.
+Example batch_trickle_example :
+  timely_from 1 1 (code_cfg 10) tinit trickle3 = true /\
+  let s := trun (code_cfg 10) trickle3 in
+  committed (core s) = [[1; 2; 3]] /\ pend (core s) = [4] /\ now (ti s) = 12 /\ twhen (ti s) = 22.
+Proof. exact trickle_code. Qed.
+Example relay_line_example :
+  let arrA := [(2, mk_sd 3 (mk_delta 1 1 [(7, 5)] [])); (1, mk_sd 1 (mk_delta 2 1 [(8, 6)] []))] in
+  let arrC := [(2, mk_sd 1 (mk_delta 2 1 [(8, 6)] [])); (3, mk_sd 3 (mk_delta 1 1 [(7, 5)] []))] in
+  trusts line_pol 1 2 = false /\ trusts line_pol 1 3 = true /\ trusts line_pol 3 1 = true /\
+  value (pinset_of line_pol 1 arrA) 7 = Some 5 /\ value (pinset_of line_pol 3 arrC) 7 = Some 5 /\
+  value (pinset_of line_pol 1 arrA) 8 = Some 6 /\ value (pinset_of line_pol 3 arrC) 8 = Some 6.
+Proof. exact line_example. Qed.
